@@ -124,3 +124,70 @@ def c11(tier, seed):
                         backends=("cadical", "minisat", "kissat"), timeout=1200, mem_gb=12,
                         desc="own address at a symbolic list position is recognised"))
     return qs
+
+
+# ------------------------------------------------------------------ lltdBlock.c frame classes
+HANDLERS = ["answerHello", "parseEmit", "parseProbe", "parseQuery", "parseQueryLargeTlv"]
+
+
+def unreach(*live):
+    return {h: "unreachable_handler" for h in HANDLERS if h not in live}
+
+
+def blkq(name, entry, live=(), K=3, frame_n=576, mtu_min=None, defines=None, unwind=None, unwindset=None, **kw):
+    """frame_n = size of the frame image; mtu_min None => MTU fixed to frame_n (constant-size buffers), else MTU symbolic in [mtu_min, frame_n]"""
+    d = ["K=%d" % K, "FRAME_N=%d" % frame_n] + list(defines or [])
+    if mtu_min is not None:
+        d.append("MTU_MIN=%d" % mtu_min)
+    else:
+        d += ["MTU_FIXED=%d" % frame_n, "MTU_MIN=%d" % min(frame_n, 576)]
+    rep = kw.pop("replace", None)
+    if rep is None:
+        rep = unreach(*live)
+    kw.setdefault("backends", ("cadical", "minisat", "kissat"))
+    kw.setdefault("timeout", 900)
+    kw.setdefault("mem_gb", 10)
+    b = kw.pop("bounds", {})
+    b = dict({"frame": "%d arbitrary bytes in an MTU-sized heap object" % frame_n, "MTU": ("[%d,%d] symbolic" % (mtu_min, frame_n)) if mtu_min is not None else ("%d (fixed)" % frame_n),
+              "pre-state": "arbitrary valid interface record: mapper fields, seq, generations symbolic; observation list 0..%d nodes with distinct keys; icon cache present or not" % K}, **b)
+    return Query(name, "blk.c", entry, defines=d, unwind=unwind if unwind is not None else K + 3, unwindset=unwindset, replace=rep, bounds=b, replay=all(v == "unreachable_handler" for v in rep.values()), **kw)
+
+
+def q_query(tier, K=3, frame_n=576, mtu_min=None, name="query"):
+    return blkq("blk_%s_K%d_%d" % (name, K, frame_n), "h_query", live=["parseQuery"], K=K, frame_n=frame_n, mtu_min=mtu_min, unwind=K + 3,
+                no_std_checks=True, desc="Query class through real parseFrame/parseQuery: QueryResp oracle (count, more flag, descriptors, addressing, seq), post-state list, ledger")
+
+
+def q_probe(tier, K=3):
+    return blkq("blk_probe_K%d" % K, "h_probe", live=["parseProbe"], K=K, unwind=K + 4, no_std_checks=True,
+                desc="Probe/Train class: record once iff addressed to own MAC and key new; earlier observations intact; no send")
+
+
+def q_reset(tier, K=3):
+    return blkq("blk_reset_K%d" % K, "h_reset", live=[], K=K, no_std_checks=True, desc="Reset class (ToS 0/1): record returns to fresh values, ledger = record only")
+
+
+def q_other(tier, K=3):
+    return blkq("blk_other_K%d" % K, "h_other", live=[], K=K, no_std_checks=True, desc="every (ToS,opcode) pair outside the request set: no send, record untouched")
+
+
+def q_sweep(tier, K=2):
+    rep = {"answerHello": "rec_answerHello", "parseEmit": "rec_parseEmit", "parseProbe": "rec_parseProbe", "parseQuery": "rec_parseQuery", "parseQueryLargeTlv": "rec_parseQueryLargeTlv"}
+    return blkq("blk_sweep", "h_sweep", K=K, replace=rep, no_std_checks=True,
+                bounds={"(ToS,opcode)": "all 256x256 pairs in one query", "mapper": "'no mapper' and 'mapper active' (symbolic)"},
+                desc="real parseFrame pre-step + ToS/opcode switch with recording handler stubs: mapper identity step rules for all 65536 pairs")
+
+
+@prop("C07", ["observation list bound K per query (stated in bounds); per-frame capacity crossed by K=29 at MTU 576 (capacity 27) and by the small-MTU model query (MTU 100, capacity 3, K=5) whose MTU lies outside the property's range but exercises the same code",
+              "Query/Probe issued in any state; a Query is answered regardless of its sender (C05 leaves strangers' commands unconstrained)"])
+def c07(tier, seed):
+    qs = [q_query(tier, 3), q_probe(tier, 3), q_reset(tier, 3),
+          q_query(tier, 5, frame_n=100, name="query_smallmtu")]
+    if tier == "thorough":
+        qs += [q_query(tier, 29), q_probe(tier, 8), q_query(tier, 3, frame_n=1500), q_query(tier, 3, frame_n=640, mtu_min=576, name="query_symmtu")]
+    return qs
+
+
+@prop("C05", ["commands (Emit/Query/QueryLargeTlv) are covered under the property's domain restriction (sender is the active mapper or none is active)"])
+def c05(tier, seed):
+    return [q_sweep(tier), q_reset(tier, 2), q_other(tier, 2)]
